@@ -34,7 +34,11 @@ var c15Uniq int64
 // genLazySpec generates an expression that contains at least one lazily initialised node.
 func genLazySpec(dt *drv.T, c *Ctx) *GenSpec {
 	inner := GenGenSpec(dt, GenCfg{Depth: c.Pick(1, 2), SmallInts: true, Custom: true, Make: true, BigRegexp: false})
-	switch pick(dt, "lazy", "deferred", "deferred", "regexp", "runetable", "string", "custom", "oneof-mix", "make", "make", "perm", "bytes") {
+	switch pick(dt, "lazy", "deferred", "deferred", "regexp", "runetable", "string", "custom", "oneof-mix", "make", "make", "perm", "bytes", "sparsefilter") {
+	case "sparsefilter":
+		// a predicate that accepts one value in 7..12: with a few hundred evaluations on one generator object, anything
+		// the generator learns from its own history shows up as a difference to the run that uses it alone
+		return &GenSpec{K: "filter", Fn: "mod", FM: int64(drv.IntRange(7, 12).Draw(dt, "fm")), FC: 0, Sub: []*GenSpec{{K: "int", IK: "Int", Mode: "range", SA: 0, SB: 99}}}
 	case "perm":
 		// not lazy, but the one generator that is built around a slice of the user: every value has to be a fresh copy
 		return &GenSpec{K: "perm", N: drv.IntRange(1, 4).Draw(dt, "permn")}
@@ -70,6 +74,9 @@ func (c15) Gen(dt *drv.T, c *Ctx) any {
 	cs.Seed = drv.Uint64Range(1, 1<<40).Draw(dt, "seed")
 	cs.Checks = drv.IntRange(1, 6).Draw(dt, "checks")
 	cs.Draws = drv.IntRange(1, 3).Draw(dt, "draws")
+	if cs.Spec.K == "filter" {
+		cs.Checks = drv.IntRange(20, 60).Draw(dt, "manychecks")
+	}
 	return cs
 }
 
